@@ -419,7 +419,7 @@ class CompiledModel(object):
             mmap = {}
             for mid, m in mems_of(block).items():
                 if memvals and m.name in memvals:
-                    mmap[default_memkey(block)(m) if False else m] = dict(memvals[m.name])
+                    mmap[default_memkey(block)(m)] = dict(memvals[m.name])      # the key Simulation documents (original MemBlock after synthesize)
             tracked = tracked if tracked is not None else sorted(block.wirevector_subset((pyrtl.Input, pyrtl.Output)), key=lambda w: w.name)
             self.tracked = tracked
             if default_tracer:      # the simulator's own default SimulationTrace
